@@ -156,31 +156,45 @@ def concretise(sc, sid, src, seed, autoprobe=2, emul=True, nopred=False, idpred=
 
 
 def persist_variants(sc, pair, cuts=None, ver=2):
-    """control run + one run per cut with a save/restore inserted after that many state-changing steps"""
-    base = dict(sc)
-    base["steps"] = [s for s in sc["steps"] if s.get("op") != "saverestore"]
-    ctl = dict(base, kind="control", pair=pair, id=sc["id"] + "/ctl")
-    res = [ctl]
-    n = len(base["steps"])
-    marks = [i for i, s in enumerate(base["steps"]) if s.get("op") != "req"]
+    """control run + one run per cut with a save/restore after that many state-changing steps. The control has
+    a "nop" step at every cut (the probe battery runs there too), each persist run the save/restore at its cut."""
+    base = [s for s in sc["steps"] if s.get("op") not in ("saverestore", "nop")]
+    marks = [i for i, s in enumerate(base) if s.get("op") != "req"]
     if cuts is None:
         cuts = list(range(0, len(marks) + 1))
-    for c in cuts:
-        pos = 0 if c == 0 else (marks[c - 1] + 1 if c - 1 < len(marks) else n)
+    pos = {c: (0 if c == 0 else marks[c - 1] + 1) for c in cuts if c <= len(marks)}
+
+    def build(which):
         steps = []
-        for i, s in enumerate(base["steps"]):
-            if i == pos:
-                steps.append({"op": "saverestore", "ver": ver})
-            s2 = dict(s)
-            if i >= pos:
-                s2["nopred"] = True
-                s2.pop("idx", None)
-                s2.pop("ok", None)
-            steps.append(s2)
-        if pos >= n:
-            steps.append({"op": "saverestore", "ver": ver})
-        res.append(dict(base, kind="persist", pair=pair, cut=c, id="%s/cut%d/v%d" % (sc["id"], c, ver), steps=steps))
+        hit = False
+        for i in range(len(base) + 1):
+            for c, p in sorted(pos.items()):
+                if p == i:
+                    if c == which:
+                        steps.append({"op": "saverestore", "ver": ver, "obs": last_obs(base, i)})
+                        hit = True
+                    else:
+                        steps.append({"op": "nop", "obs": last_obs(base, i), "nopred": hit})
+            if i < len(base):
+                s2 = dict(base[i])
+                if hit:
+                    s2["nopred"] = True
+                    s2.pop("idx", None)
+                    s2.pop("ok", None)
+                steps.append(s2)
+        return steps
+    res = [dict(sc, kind="control", pair=pair, id=sc["id"] + "/ctl", steps=build(None))]
+    for c in sorted(pos):
+        res.append(dict(sc, kind="persist", pair=pair, cut=c, id="%s/cut%d/v%d" % (sc["id"], c, ver), steps=build(c)))
     return res
+
+
+def last_obs(base, i):
+    """the model's observations in force before step i (those of the last state-changing step)"""
+    for s in reversed(base[:i]):
+        if "obs" in s:
+            return s["obs"]
+    return []
 
 
 def tlc_walks(ctx, name, n, depth, bugs, persist, maps="MC_Maps", gmaps="MC_GMaps", paths="MC_Paths"):
@@ -306,10 +320,11 @@ def detect(ctx, bd, abi, pid, persist):
             raise C.ToolError("could not read the counterexample for %s" % d)
         s = concretise(sc, "litmus-" + d, "tlc-counterexample:" + ",".join(r["violated"]), ctx.seed, autoprobe=1, nopred=True)
         if DEFECTS[d][0] == "C19":
-            # the model's own saverestore step stays where TLC put it: control + the same with the restore
+            # the model's own saverestore step stays where TLC put it; control: the same with "nop" in its place
             steps = s["steps"]
             pos = [i for i, x in enumerate(steps) if x.get("op") == "saverestore"]
-            ctl = dict(s, kind="control", pair=1000 + len(scs), id=s["id"] + "/ctl", steps=[x for x in steps if x.get("op") != "saverestore"])
+            ctl = dict(s, kind="control", pair=1000 + len(scs), id=s["id"] + "/ctl",
+                       steps=[({"op": "nop", "obs": x.get("obs", []), "nopred": True} if x.get("op") == "saverestore" else x) for x in steps])
             per = dict(s, kind="persist", pair=ctl["pair"], id=s["id"] + "/persist", cut=pos[0] if pos else -1)
             scs += [ctl, per]
         else:
@@ -487,6 +502,7 @@ def run_c07(ctx):
 
         def mut(bad):
             n = 0
+            drop = []
             for i, x in enumerate(bad):
                 if x.get("e") == "BackendCall" and x.get("m") == "getattr" and n == 0:
                     x["backend"] = "nobody"
@@ -494,9 +510,11 @@ def run_c07(ctx):
                 elif x.get("e") == "Reply" and "entry" in x and x["entry"]["ino"]["idx"] > 0 and n == 1:
                     x["entry"]["ino"]["idx"] = (x["entry"]["ino"]["idx"] % 250) + 1
                     n += 1
-                elif x.get("e") == "BackendCall" and x.get("m") == "mkdir" and n == 2:
-                    bad[i] = {"e": "Nop", "seg": x["seg"]}
+                elif x.get("e") == "BackendCall" and x.get("m") == "mkdir" and x["ret"]["kind"] == "entry" and n == 2:
+                    drop.append(i)
                     n += 1
+            for i in drop:
+                del bad[i]
             return n == 3
         demo = corrupt_demo(ctx, first_segments(rows, 40), mut, "C07|", "backend of a getattr call renamed; index bits of a returned inode changed; a mkdir call event dropped")
         ctx.extra.update({
@@ -560,8 +578,8 @@ def run_c19(ctx):
         quick = ctx.quick
         rnd_py = random.Random(ctx.seed)
         # histories of the model: with per-mount/global mappings (format 2) and without any (format 1 too)
-        walks = tlc_walks(ctx, "walk_c19", 40 if quick else 600, 5 if quick else 7, present, False)
-        walks1 = tlc_walks(ctx, "walk_c19v1", 15 if quick else 200, 5 if quick else 7, present, False, maps="MC_NoMaps", gmaps="MC_NoGMaps")
+        walks = tlc_walks(ctx, "walk_c19", 14 if quick else 600, 5 if quick else 7, present, False)
+        walks1 = tlc_walks(ctx, "walk_c19v1", 5 if quick else 200, 5 if quick else 7, present, False, maps="MC_NoMaps", gmaps="MC_NoGMaps")
         scs = []
         pair = 1
         for i, w in enumerate(walks):
@@ -571,24 +589,32 @@ def run_c19(ctx):
             scs += persist_variants(concretise(w, "tlc-c19v1-%d" % i, "tlc-simulate", ctx.seed * 2000 + i, autoprobe=1), pair, ver=1)
             pair += 1
         # the model's own behaviours with save/restore steps (predictions after the restore included)
-        walksp = tlc_walks(ctx, "walk_c19p", 40 if quick else 500, 6 if quick else 8, present, True)
+        walksp = tlc_walks(ctx, "walk_c19p", 12 if quick else 500, 6 if quick else 8, present, True)
         for i, w in enumerate(walksp):
             if any(s.get("op") == "saverestore" for s in w["steps"]):
                 c = concretise(w, "tlc-c19p-%d" % i, "tlc-simulate", ctx.seed * 3000 + i, autoprobe=1)
-                ctl = dict(c, kind="control", pair=pair, id=c["id"] + "/ctl", steps=[x for x in c["steps"] if x.get("op") != "saverestore"])
-                # predictions of the control are those of the unsaved model only before the first restore: drop them
-                ctl["steps"] = [dict(x, nopred=True) for x in ctl["steps"]]
-                for x in ctl["steps"]:
-                    x.pop("idx", None)
-                    x.pop("ok", None)
-                scs += [ctl, dict(c, kind="persist", pair=pair, cut=-2)]
+                # control: the same history with the save/restore steps replaced by "nop"; the predictions are those
+                # of the model *with* the restores, so the control carries none after the first one
+                cs, seen_sr = [], False
+                for x in c["steps"]:
+                    if x.get("op") == "saverestore":
+                        seen_sr = True
+                        cs.append({"op": "nop", "obs": x.get("obs", []), "nopred": True})
+                    else:
+                        y = dict(x)
+                        if seen_sr:
+                            y["nopred"] = True
+                            y.pop("idx", None)
+                            y.pop("ok", None)
+                        cs.append(y)
+                scs += [dict(c, kind="control", pair=pair, id=c["id"] + "/ctl", steps=cs), dict(c, kind="persist", pair=pair, cut=-2)]
                 pair += 1
         # seeded histories, a few cuts each
-        rnd = gen_random(ctx, bd, abi, 1 if quick else 6, 120 if quick else 400, "churn", "c19")
-        rnd1 = gen_random(ctx, bd, abi, 1 if quick else 4, 120 if quick else 400, "nomap", "c19n")
+        rnd = gen_random(ctx, bd, abi, 1 if quick else 6, 100 if quick else 400, "churn", "c19")
+        rnd1 = gen_random(ctx, bd, abi, 1 if quick else 4, 60 if quick else 400, "nomap", "c19n")
         for s in rnd + rnd1:
             nm = sum(1 for x in s["steps"] if x.get("op") != "req")
-            cuts = sorted(set(rnd_py.sample(range(1, nm + 1), min(3 if quick else 8, nm))))
+            cuts = sorted(set(rnd_py.sample(range(1, nm + 1), min(2 if quick else 8, nm))))
             scs += persist_variants(s, pair, cuts=cuts, ver=1 if s.get("nomap") else 2)
             pair += 1
         allsc = extra_sc + scs
